@@ -60,6 +60,8 @@ type Prog struct {
 
 	statsFields     map[*types.Var]bool
 	addrTakenFields map[*types.Var]bool
+	paramCalls      map[*ssa.Function]map[int]bool
+	supplyCache     map[[2]any]bool
 }
 
 func goEnv(v Variant) []string {
